@@ -8,6 +8,7 @@ import (
 	"runtime/debug"
 	"sort"
 	"strings"
+	"sync"
 
 	"github.com/pentops/j5/internal/j5s/protobuild"
 	"github.com/pentops/j5/internal/j5s/protoprint"
@@ -50,42 +51,45 @@ type ExecCfg struct {
 	SharedDeps   bool     `json:"shared_deps"`
 	RealReader   bool     `json:"real_file_reader,omitempty"` // real protobuild.fileReader over an in-memory fs.FS (no read faults)
 	Ops          []Op     `json:"ops"`
-	MaskSites    []string `json:"mask_sites,omitempty"` // sites forced to identity order
-	MaskCalls    []int    `json:"mask_calls,omitempty"` // decision indices forced to identity order
+	MaskSites    []string `json:"mask_sites,omitempty"`     // sites forced to identity order
+	MaskDecisions []string `json:"mask_decisions,omitempty"` // individual decisions (site, collection content) forced to identity order
 }
 
 type Applied struct {
-	Call int    `json:"call"`
+	ID   string `json:"id"` // hash of (site, size, collection content): identifies the decision independently of call order
 	Site string `json:"site"`
 	N    int    `json:"n"`
 }
 
 type execState struct {
+	mu        sync.Mutex // the code under test may iterate from several goroutines
 	cfg       ExecCfg
-	call      int
 	maskSites map[string]bool
-	maskCalls map[int]bool
+	maskDec   map[string]bool
 	applied   []Applied // non-identity permutations actually applied
+	seen      map[string]bool
 	sig       uint64
 	stats     *Stats
 }
 
 func newExecState(cfg ExecCfg, stats *Stats) *execState {
-	e := &execState{cfg: cfg, maskSites: map[string]bool{}, maskCalls: map[int]bool{}, stats: stats, sig: 14695981039346656037}
+	e := &execState{cfg: cfg, maskSites: map[string]bool{}, maskDec: map[string]bool{}, seen: map[string]bool{}, stats: stats}
 	for _, s := range cfg.MaskSites {
 		e.maskSites[s] = true
 	}
-	for _, c := range cfg.MaskCalls {
-		e.maskCalls[c] = true
+	for _, c := range cfg.MaskDecisions {
+		e.maskDec[c] = true
 	}
 	return e
 }
 
 // perm is the single decision source of an execution: every iteration order
 // (Go maps, protobuf containers, file/package/dependency listings) asks here.
-func (e *execState) perm(site string, n int) []int {
-	call := e.call
-	e.call++
+// The permutation is a pure function of (execution seed, site, collection
+// content), so it does not depend on how many iterations ran before or on
+// which goroutine asks, and a replay reproduces it even if the code path
+// around it changes.
+func (e *execState) perm(site string, n int, content uint64) []int {
 	listing := strings.HasPrefix(site, "listing:")
 	if listing && !e.cfg.PermListings {
 		return nil
@@ -93,15 +97,22 @@ func (e *execState) perm(site string, n int) []int {
 	if !listing && !e.cfg.PermSites {
 		return nil
 	}
-	if e.maskSites[site] || e.maskCalls[call] {
+	dh := simrt.Derive(simrt.HashString(site), uint64(n), content)
+	id := fmt.Sprintf("%016x", dh)
+	e.mu.Lock()
+	defer e.mu.Unlock()
+	if e.maskSites[site] || e.maskDec[id] {
 		return nil
 	}
-	p := simrt.NewRng(simrt.Derive(e.cfg.Seed, uint64(call))).Perm(n)
+	p := simrt.NewRng(simrt.Derive(e.cfg.Seed, dh)).Perm(n)
 	if simrt.IsIdentity(p) {
 		return nil
 	}
-	e.applied = append(e.applied, Applied{call, site, n})
-	e.sig = (e.sig ^ simrt.HashString(fmt.Sprint(site, n, p))) * 1099511628211
+	if !e.seen[id] {
+		e.seen[id] = true
+		e.applied = append(e.applied, Applied{id, site, n})
+		e.sig ^= simrt.Derive(dh, e.cfg.Seed) // order-independent accumulation
+	}
 	if e.stats != nil {
 		e.stats.SitePermuted[site]++
 	}
@@ -109,7 +120,7 @@ func (e *execState) perm(site string, n int) []int {
 }
 
 func (e *execState) permStrings(site string, in []string) []string {
-	p := e.perm(site, len(in))
+	p := e.perm(site, len(in), simrt.HashStrings(in))
 	if p == nil {
 		return in
 	}
@@ -123,6 +134,7 @@ func (e *execState) permStrings(site string, in []string) []string {
 // ---------------------------------------------------------------- simulated file source
 
 type memSource struct {
+	mu        sync.Mutex // the code under test may read files from several goroutines
 	prog      *Program
 	ex        *execState
 	failNth   int // >0: the failNth-th next read fails (transient)
@@ -133,6 +145,8 @@ type memSource struct {
 var errTransient = errors.New("simulated transient read error")
 
 func (m *memSource) GetLocalFile(_ context.Context, name string) ([]byte, error) {
+	m.mu.Lock()
+	defer m.mu.Unlock()
 	m.reads++
 	if m.failNth > 0 {
 		m.failNth--
